@@ -502,7 +502,7 @@ func c17Sibling(c *Ctx, p *Prog, rule string) {
 	}
 	named := obj.Type().(*types.Named)
 	st := named.Underlying().(*types.Struct)
-	// the store it wraps, plus at most plain configuration values (numbers, strings, booleans)
+	// the store it wraps, plus at most plain configuration values (numbers, strings, booleans, time stamps)
 	// that only its constructor writes: nothing that can remember an answer
 	stateful := ""
 	hasBacking := false
@@ -512,7 +512,8 @@ func c17Sibling(c *Ctx, p *Prog, rule string) {
 			hasBacking = true
 			continue
 		}
-		if _, isBasic := f.Type().Underlying().(*types.Basic); !isBasic {
+		// (a time.Time is a plain value as well: a creation stamp that only the constructor writes)
+		if _, isBasic := f.Type().Underlying().(*types.Basic); !isBasic && f.Type().String() != "time.Time" {
 			stateful = "field " + f.Name() + " of type " + f.Type().String() + " can hold state"
 			continue
 		}
